@@ -2,6 +2,7 @@ import Oq3.Driver.Types
 import Oq3.Driver.Symbols
 import Oq3.Driver.Lex
 import Oq3.Driver.Parse
+import Oq3.Driver.Tree
 import Oq3.Driver.Sema
 
 open Oq3.Driver
@@ -26,6 +27,9 @@ def main (args : List String) : IO UInt32 := do
   | ["symtab"] => loop stdin stdout symtabLine; return 0
   | ["parse"] => loop stdin stdout parseLine; return 0
   | ["sema"] => loop stdin stdout semaLine; return 0
+  | ["tree", uc] => do
+      let tab ← readUClass uc
+      loop stdin stdout (treeLine tab); return 0
   | ["lex", uc] => do
       let tab ← readUClass uc
       loop stdin stdout (lexLine tab); return 0
